@@ -89,3 +89,6 @@ K("icc.tag_truncated_more", ["C18", "C01"], "jxl-color", _D, _DM, "icc_tag_trunc
 K("icc.tag_list_end_size", ["C18"], "jxl-color", _D, _DM, "icc_tag_list_end_size",
   "bounded:output_size 200, command stream [1 tag] ending inside the tag list, all header bytes", _F,
   "Ok only if exactly output_size bytes were produced (libjxl: 'Wrong output size')", kani_args=_NR)
+K("icc.mixed_profile", ["C18", "C01"], "jxl-color", _D, _DM, "icc_mixed_profile",
+  "bounded:one command stream using all sections (2 tags; width-4 order-1 stride-12 run predicted from the tag entries; 2-shuffle; 10; 19), all names and data bytes", _F + ["shuffle2", "shuffle4"],
+  "whole profile == header ++ tag count ++ entries ++ predicted run (from tag-list bytes) ++ shuffled ++ XYZ block ++ mluc signature", kani_args=_NR)
